@@ -63,7 +63,9 @@ int run_value(const Args& a) {
         if (created != o.first) { bad("value:created_value_ptr-differs-from-get", "created_value_ptr does not designate the stored copy"); }
         alloc::Block b{};
         std::size_t eff = std::max<std::size_t>(al, 8);
-        if (!alloc::resolve(o.first, b)) {
+        if (alloc::mode() != alloc::Mode::FULL) {
+            // no registry (valgrind run)
+        } else if (!alloc::resolve(o.first, b)) {
             bad("value:pointer-not-in-live-block", "returned pointer is not inside a live library block");
         } else {
             if (b.size != want.size() + eff) { bad("value:block-size", "allocated size " + std::to_string(b.size) + " != len+max(align,8)"); }
@@ -149,7 +151,7 @@ int run_value(const Args& a) {
                 rep.violation(vals[i] == 0 ? "value:inline-zero-not-returned-by-value" : "value:inline-not-returned-by-value", "inline (pointer-typed) value did not come back by value",
                               JObj().num("value", vals[i]).str("put", st(s)).str("get", st(g)).num("got", reinterpret_cast<uintptr_t>(o.first)).num("len", o.second).done());
             }
-            if (c1.value_allocs != c0.value_allocs) {
+            if (alloc::mode() == alloc::Mode::FULL && c1.value_allocs != c0.value_allocs) {
                 rep.violation("value:inline-value-allocated", "an inline value caused a heap allocation", JObj().num("value", vals[i]).done());
             }
             std::vector<ScanTuple> tl;
